@@ -364,3 +364,36 @@ Example C13_npo_nonvacuous :
   so_res (npo_solve (mknpo 2 6 false (Some 4%Q) None never
                         (fun k => match k with 2 => 9%Q | _ => 5%Q end) never) [o_; o_; o_]) = Solved 3.
 Proof. vm_compute. repeat split; reflexivity. Qed.
+
+(* ---- audit additions (agent-c19, audit/props_C12_C15.md) ---- *)
+(* the hypotheses `inconclusive_at sts p` + `aux <= p < used` of the _inconclusive theorems, instantiated exactly (the Examples
+   above state the outcomes, not these premises): MinPathCover, MinGenSet, MinFlowDecomp main loop, MinFlowDecompCycles, a repeated
+   solve(), the scanning variant *)
+Example C13_inconclusive_hypotheses_satisfiable :
+  (inconclusive_at [i_; u_; o_] 1 /\ 1 < used (mpc_solve true 1 5 [i_; u_; o_])) /\
+  (inconclusive_at [i_; t_; o_] 1 /\ 1 < used (mgs_solve false 1 4 [i_; t_; o_])) /\
+  (let P := mkfd 1 true 6 true 4 true 3 never never in
+   inconclusive_at [i_; o_; o_; t_] 3 /\ aux (mfd_solve true true P [i_; o_; o_; t_]) <= 3 < used (mfd_solve true true P [i_; o_; o_; t_])) /\
+  (let P := mkfd 1 true 6 false 0 false 0 never never in
+   inconclusive_at [i_; t_] 1 /\ aux (mfdc_solve false P [i_; t_]) <= 1 < used (mfdc_solve false P [i_; t_])) /\
+  (let P := mkfd 1 true 6 true 4 false 0 never never in
+   inconclusive_at [t_] 0 /\ aux (fd_resolve P 2 None [t_]) <= 0 < used (fd_resolve P 2 None [t_])) /\
+  (let P := mkfd 2 false 23 false 0 false 0 never never in let W := mkfd 2 false 20 false 0 false 0 never never in
+   inconclusive_at [i_; o_; t_] 2 /\
+   aux (mfd_scan_solve false false P [W] [i_; o_; t_]) <= 2 < used (mfd_scan_solve false false P [W] [i_; o_; t_])).
+Proof.
+  cbn zeta. repeat split; try (vm_compute; lia);
+    first [exists u_; split; reflexivity | exists t_; split; reflexivity].
+Qed.
+Print Assumptions C13_inconclusive_hypotheses_satisfiable.
+
+(* degenerate inputs, so that they are not mistaken for content: an EMPTY search range (lb >= upper end) ends NotSolved without any
+   solver call; a status list that is too short ends with the separate result Starved, never with Solved / NotSolved (the theorems
+   above are therefore silent, not wrong, on starved runs); a search that is started at lb = 0 and is told "optimal" reports
+   Solved 0 -- the loops do not guard against k = 0, the callers pass lb >= 1 (get_lowerbound_k / max(1, ...)) *)
+Example C13_degenerate_ranges_and_starvation :
+  mpc_solve true 5 5 [o_] = mkout NotSolved 0 0 5 /\
+  so_res (mpc_solve true 1 5 [i_]) = Starved /\ so_res (mpc_solve true 1 5 []) = Starved /\ so_res (mgs_solve false 1 4 [i_]) = Starved /\
+  so_res (mpc_solve true 0 3 [o_]) = Solved 0.
+Proof. vm_compute. repeat split; reflexivity. Qed.
+Print Assumptions C13_degenerate_ranges_and_starvation.
